@@ -10,6 +10,8 @@ interleavings of their steps; each must evolve exactly as it does alone.
 import hashlib
 import itertools
 
+import math
+
 import numpy as np
 
 from mc.core import HarnessError, fail, lib
@@ -29,6 +31,22 @@ def post(t):
     return float(-0.5 * (((t - C[: t.size]) ** 2) / S2[: t.size]).sum() - 0.05 * (t ** 4).sum())
 
 
+HARD = 1.3
+
+
+def post_hard(t):
+    """the same density restricted to the cube |t_i| <= 1.3: log-density -inf outside (a posterior with hard limits of its own)"""
+    t = np.asarray(t, dtype=float)
+    return post(t) if np.all(np.abs(t) <= HARD) else -math.inf
+
+
+def agree(a, b, tol=1e-12):
+    """stored log-probability a against the reference b: equal if either is not finite, else to rounding"""
+    if not (math.isfinite(a) and math.isfinite(b)):
+        return a == b
+    return abs(a - b) <= tol * (1 + abs(b))
+
+
 def grad(t):
     t = np.asarray(t, dtype=float)
     return -((t - C[: t.size]) / S2[: t.size]) - 0.2 * t ** 3
@@ -45,6 +63,8 @@ def inputs_for(kind, d, limits):
         inp["start"] = np.array([1, 0][:d])  # integer dtype is a legal way to write a starting point
     if kind == "EnsembleSampler":
         inp["start"] = np.array([[0.3, -0.2], [1.0, 0.4], [-0.6, 0.8], [0.1, -0.9]])[:, :d].copy()
+        if limits == "hard-support":
+            inp["start"] = np.array([[0.3, -0.2], [1.0, 0.4], [-0.6, 0.8], [1.9, -0.9]])[:, :d].copy()  # the last walker starts where the log-density is -inf
         if limits == "int-dtype":
             inp["start"] = np.array([[0, -1], [2, 1], [-1, 3], [1, -2]])[:, :d].copy()  # integer dtype is a legal input
     if kind == "HamiltonianChain":
@@ -74,6 +94,8 @@ def build(kind, inp, T, limits, fn=post):
         return ch
     if kind == "EnsembleSampler":
         e = EnsembleSampler(posterior=fn, starting_positions=inp["start"], bounds=b, display_progress=False)
+        if limits == "hard-support":
+            e.max_attempts = 2  # a walker in the -inf region may fail again and again: keep the execution short
         if limits == "max-attempts-1":
             e.max_attempts = 1  # every rejected proposal is a failed walker update: position and probability must both stay
         return e
@@ -93,14 +115,14 @@ def inputs_changed(inp, snap):
     return bad
 
 
-def invariant(ch, kind, T, label, add_fail, ctxinfo):
+def invariant(ch, kind, T, label, add_fail, ctxinfo, post=post):
     """probs[k] == posterior(sample[k])/T for all k; lengths; mode."""
     name = label
     if kind == "EnsembleSampler":
         with lib("walker-readout"):
             wp, wl = np.array(ch.walker_positions), np.array(ch.walker_probs)
         for i in range(wp.shape[0]):
-            if abs(wl[i] - post(wp[i])) > 1e-12 * (1 + abs(wl[i])):
+            if not agree(float(wl[i]), post(wp[i])):
                 add_fail(f"probs/{name}/walker-probability-not-posterior-at-walker-position", f"walker {i}: stored {wl[i]!r}, posterior {post(wp[i])!r}", **ctxinfo)
         if ch.chain_length == 0 and ch.sample is None:
             return None
@@ -116,7 +138,7 @@ def invariant(ch, kind, T, label, add_fail, ctxinfo):
     Tq = 1.0 if kind == "EnsembleSampler" else T
     for k in range(S.shape[0]):
         ref = post(S[k]) / Tq
-        if not abs(P[k] - ref) <= 1e-12 * (1 + abs(ref)):
+        if not agree(float(P[k]), ref):
             add_fail(f"probs/{name}/probability-not-posterior-at-sample-over-T", f"index {k} of {S.shape[0]}: stored {P[k]!r}, posterior/T {ref!r}", **ctxinfo)
             break
     # the same correspondence through burned / thinned read-outs (sample k of the read-out <-> probability k of the read-out)
@@ -128,7 +150,7 @@ def invariant(ch, kind, T, label, add_fail, ctxinfo):
             Pb = np.asarray(ch.get_probabilities(burn=burn, thin=thin))
         if Sb.shape[0] != Pb.shape[0]:
             add_fail(f"probs/{name}/burned-read-outs-misaligned", f"burn={burn} thin={thin}: {Sb.shape[0]} samples, {Pb.shape[0]} probabilities", **ctxinfo)
-        elif any(abs(Pb[k] - post(Sb[k]) / Tq) > 1e-12 * (1 + abs(Pb[k])) for k in range(Sb.shape[0])):
+        elif any(not agree(float(Pb[k]), post(Sb[k]) / Tq) for k in range(Sb.shape[0])):
             add_fail(f"probs/{name}/burned-read-outs-misaligned", f"burn={burn} thin={thin}: probability k is not the posterior at sample k", **ctxinfo)
     with lib("mode"):
         m = np.asarray(ch.mode()).reshape(-1)
@@ -173,17 +195,21 @@ def ev_history(case):
     def body(ctx):
         inp = inputs_for(kind, d, limits)
         snap = snapshot(inp)
+        fn = post_hard if limits == "hard-support" else post
         with lib("construct"):
-            ch = build(kind, inp, T, limits)
+            ch = build(kind, inp, T, limits, fn=fn)
         gen = ScriptedGenerator(ctx, normal=[-1.0, 1.0], quantiles=(0.25, 0.75))
         set_rng(ch, gen)
         info = {"choices": None}
-        key = invariant(ch, kind, T, label, add_fail, {"after": []})
+        key = invariant(ch, kind, T, label, add_fail, {"after": []}, post=fn)
         states.add((0, key))
         for i, op in enumerate(hist):
             with lib(f"op-{op}"):
                 apply_op(ch, kind, op)
-            k2 = invariant(ch, kind, T, label, add_fail, {"after": hist[: i + 1], "choices": ctx.choices})
+            k2 = invariant(ch, kind, T, label, add_fail, {"after": hist[: i + 1], "choices": ctx.choices}, post=fn)
+            if limits == "hard-support":
+                pr = np.asarray(ch.walker_probs if kind == "EnsembleSampler" else ch.get_probabilities(burn=0, thin=1), dtype=float)
+                tags.add(f"{label}:{'a-stored-log-probability-is--inf' if np.any(np.isneginf(pr)) else 'all-stored-log-probabilities-finite'}")
             trans.add((key, op, k2))
             states.add((i + 1, k2))
             key = k2
@@ -368,10 +394,17 @@ def run(ck):
     bound = 2 if ck.quick else 3
     cases = []
     for kind in SAMPLERS:
-        for limits in (None, "box", "int-dtype", "max-attempts-1", "int-start"):
+        for limits in (None, "box", "int-dtype", "max-attempts-1", "int-start", "hard-support"):
             if limits in ("int-dtype", "max-attempts-1") and kind != "EnsembleSampler":
                 continue
             if limits == "int-start" and kind == "EnsembleSampler":
+                continue
+            if limits == "hard-support":
+                # the posterior has hard limits of its own and one walker starts outside them (log-density -inf)
+                if kind == "EnsembleSampler":
+                    for d in (1, 2):
+                        for h in (["step", "step"], ["adv1", "adv3"]) if ck.quick else (["step", "step", "step"], ["adv1", "adv3"], ["adv3", "adv1"]):
+                            cases.append(dict(sampler=kind, T=1.0, limits=limits, d=d, history=list(h), bound=1 if ck.quick else 2))
                 continue
             for T in (1.0, 2.5):
                 if kind == "EnsembleSampler" and T != 1.0:
